@@ -43,6 +43,9 @@ func (a *AlterConfigsResponse) decode(pd packetDecoder, version int16) error {
 	if err != nil {
 		return err
 	}
+	if responseCount < 0 {
+		return errInvalidArrayLength
+	}
 
 	a.Resources = make([]*AlterConfigsResourceResponse, responseCount)
 
